@@ -29,7 +29,7 @@ def fold_parse_cmd(repo, request, state=None, custom=None, hdr_ver=0):
     c2, pick = repo.find_method(dci, "pick_hdr_ver")
     if setm is None or pick is None:
         raise AnalysisError("DATAInterface.set_hdr_ver / pick_hdr_ver vanished")
-    st = {"running": False, "ready": True, "pwr_meas": Opaque("pwr_meas"), "tx_power_base": 50, "tx_att_base": 0}
+    st = {"running": False, "ready": True, "pwr_meas": Opaque("pwr_meas"), "tx_power_base": 50, "tx_att_base": 0, "fh": None}
     st.update(state or {})
     env = {REQ: list(request), "self.trx.data_if._hdr_ver": hdr_ver}
     for k, v in st.items():
